@@ -231,6 +231,15 @@ func checkW(c WCase, r *vf.R) error {
 	if err != nil {
 		return vf.Errorf("not decodable: %v", err)
 	}
+	// an arc whose end points differ by less than the library's Epsilon (1e-10 relative to nothing) is, as SVG
+	// prescribes for identical end points, dropped by the library while the geometric reading is a full ellipse:
+	// the meaning of such an input flips at the tolerance and is not part of the statement
+	for _, s := range segs {
+		if s.Cmd == oracle.ArcTo && s.P0 != s.End() && s.P0.Dist(s.End()) < 1e-8 {
+			r.Class("arc-end-points-within-epsilon(discarded)")
+			return nil
+		}
+	}
 	const N = 400
 	polys := oracle.Sample(segs, N)
 	size := oracle.Bounds(polys).Size()
@@ -265,6 +274,21 @@ func checkW(c WCase, r *vf.R) error {
 		if s.Curved() {
 			b := oracle.SegBounds(s, 64)
 			ys = append(ys, b.Y0, b.Y1)
+			// local extremes of y inside the segment
+			const M = 256
+			for i := 1; i < M; i++ {
+				y0, y1, y2 := s.Eval(float64(i-1)/M).Y, s.Eval(float64(i)/M).Y, s.Eval(float64(i+1)/M).Y
+				if (y1-y0)*(y2-y1) <= 0 && (y1 != y0 || y2 != y1) {
+					// vertex of the parabola through the three samples
+					den := y0 - 2*y1 + y2
+					if den != 0 {
+						d := 0.5 * (y0 - y2) / den
+						ys = append(ys, y1-0.25*(y0-y2)*d)
+					} else {
+						ys = append(ys, y1)
+					}
+				}
+			}
 		}
 	}
 	for qi, qq := range c.Q {
@@ -495,6 +519,12 @@ func checkF(c FCase, r *vf.R) error {
 	for _, rule := range rules {
 		var got []bool
 		if err := vf.Try("Filling", func() { got = p.Filling(rule) }); err != nil {
+			// Filling shoots a ray from the first point of every contour through the other contours: the findings
+			// of windings() apply when that ray passes through or next to a vertex or extreme of another contour
+			c, d := levelClash(segs)
+			if r.Excluded("F06c", c) || r.Excluded("F06d", d) {
+				return nil
+			}
 			return err
 		}
 		if len(got) != len(polys) {
@@ -515,11 +545,61 @@ func checkF(c FCase, r *vf.R) error {
 			}
 			w, _ := oracle.Winding(polys, in)
 			if got[i] != fills(rule, w) {
+				c, d := levelClash(segs)
+				if r.Excluded("F06c", c) || r.Excluded("F06d", d) {
+					return nil
+				}
 				return vf.Errorf("Filling(%v)[%d] = %v, the winding number just inside contour %d is %d (path %v)", rule, i, got[i], i, w, p)
 			}
 		}
 	}
 	return nil
+}
+
+// levelClash: the first point of a contour is level (within 1e-5) with a vertex or extreme of another contour that has
+// curved segments (class of finding F06c), or within 1e-8 of, but not exactly level with, a vertex of another contour
+// (class of finding F06d).
+func levelClash(segs []oracle.Seg) (curvedLevel, almostLevel bool) {
+	type contour struct {
+		start  oracle.Pt
+		ys     []float64 // vertices
+		es     []float64 // extremes of curved segments
+		curved bool
+	}
+	var cs []contour
+	for _, s := range segs {
+		if s.Cmd == oracle.MoveTo {
+			cs = append(cs, contour{start: s.End()})
+			continue
+		}
+		if len(cs) == 0 {
+			continue
+		}
+		c := &cs[len(cs)-1]
+		c.ys = append(c.ys, s.End().Y)
+		if s.Curved() {
+			c.curved = true
+			b := oracle.SegBounds(s, 64)
+			c.es = append(c.es, b.Y0, b.Y1)
+		}
+	}
+	for i := range cs {
+		for j := range cs {
+			if i == j {
+				continue
+			}
+			y := cs[i].start.Y
+			for _, v := range cs[j].ys {
+				if dy := math.Abs(v - y); dy > 0 && dy < 1e-8 {
+					almostLevel = true
+				}
+			}
+			if cs[j].curved && (nearLevel(cs[j].ys, y) || nearLevel(cs[j].es, y)) {
+				curvedLevel = true
+			}
+		}
+	}
+	return
 }
 
 func TestCCWFilling(t *testing.T) {
